@@ -1,6 +1,6 @@
 """Contracts for canonical-site flags and strand rules (C18): src/assignment_io.py, src/common.py, src/gene_info.py."""
 from pyvc.api import contract, spec, lemma, record, finite, bounded
-from pyvc import native
+from pyvc import native, front
 
 IV = "tuple[int,int]"
 IVS = "list[tuple[int,int]]"
@@ -73,13 +73,32 @@ contract("src/assignment_io.py:IOSupport.check_sites_are_canonical",
 
 
 # ---- StrandDetector (src/gene_info.py): strand of a novel model from its splice sites, polyA/T as tie-break ---------------
-record("StrandDetector", {"strand_dict": "dict[tuple[int,int],str]", "chr_record": "any"})
+record("StrandDetector", {"strand_dict": "dict[tuple[int,int],str]", "chr_record": "str"})
 
-contract("src/common.py:get_intron_strand", {"intron": IV, "reference_region": "any", "ref_region_start": "int"},
-         returns="str", props=["C18"], trusted=True,
-         ensures=["result == '+' or result == '-' or result == '.'"],
-         note="string slicing/upper() on a pyfaidx record: outside the subset; decided by the finite-domain check "
-              "C18.intron_strand_table over all site dinucleotides instead")
+
+@spec("str, int, tuple[int,int] -> str", opaque=True)
+def istrand(ref, start, intron):
+    # the strand the splice sites of one intron speak for, read from the sequence `ref` whose first base has coordinate `start`
+    return '+' if canon(ref, start, intron, '+') else ('-' if canon(ref, start, intron, '-') else '.')
+
+
+# the reference is a string here (a pyfaidx record is sliced and converted with str() in exactly the same way); which sequence and which
+# offset the callers hand over is part of what is proved below
+contract("src/common.py:get_intron_strand", {"intron": IV, "reference_region": "str", "ref_region_start": "int"},
+         returns="str", props=["C18"],
+         requires=["ref_region_start <= intron[0]", "intron[0] + 1 <= intron[1]", "intron[1] - ref_region_start < len(reference_region)"],
+         ensures=["result == istrand(reference_region, ref_region_start, intron)"], reveal=["istrand"], native=False)
+
+_IN_CHR = lambda v: "1 <= %s[0] and %s[0] + 1 <= %s[1] and %s[1] <= len(self.chr_record)" % (v, v, v, v)
+
+contract("src/gene_info.py:StrandDetector.set_strand", {"self": "rec:StrandDetector", "intron": IV, "strand": "opt[str]"}, returns="none",
+         props=["C18"], modifies=["self.strand_dict"], requires=[_IN_CHR("intron")],
+         # an explicit (annotation) strand is stored as given; without one the strand is read from the CHROMOSOME sequence at the
+         # intron's chromosome coordinates
+         ensures=["all(k in self.strand_dict and (k == intron or self.strand_dict[k] == old(self.strand_dict)[k]) for k in old(self.strand_dict))",
+                  "strand is None or len(strand) == 0 or self.strand_dict[intron] == strand",
+                  "not (strand is None or len(strand) == 0) or len(self.chr_record) == 0 or self.strand_dict[intron] == istrand(self.chr_record, 1, intron)"],
+         native=False)
 
 @spec("dict[tuple[int,int],str], list[tuple[int,int]], int, str -> int")
 def votes(sd, introns, n, s):
@@ -95,7 +114,10 @@ lemma("votes_frame", {"sd1": "dict[tuple[int,int],str]", "sd2": "dict[tuple[int,
 
 contract("src/gene_info.py:StrandDetector.count_canonical_sites", {"self": "rec:StrandDetector", "introns": IVS},
          returns="tuple[int,int]", props=["C18"], modifies=["self.strand_dict"],
+         requires=["all(1 <= introns[j][0] and introns[j][0] + 1 <= introns[j][1] and introns[j][1] <= len(self.chr_record) for j in range(len(introns)))"],
          ensures=["all(k in self.strand_dict and self.strand_dict[k] == old(self.strand_dict)[k] for k in old(self.strand_dict))",
+                  # an intron the memo did not know is given the strand its splice sites have in the chromosome sequence
+                  "all(introns[j] in old(self.strand_dict) or self.strand_dict[introns[j]] == istrand(self.chr_record, 1, introns[j]) for j in range(len(introns)))",
                   "all(introns[j] in self.strand_dict for j in range(len(introns)))",
                   "result[0] >= 0 and result[1] >= 0 and result[0] + result[1] <= len(introns)",
                   "(result[0] > 0) == any(self.strand_dict[introns[j]] == '+' for j in range(len(introns)))",
@@ -110,6 +132,9 @@ contract("src/gene_info.py:StrandDetector.count_canonical_sites", {"self": "rec:
              "count_fwd == votes(self.strand_dict, introns, _k0, '+')", "count_rev == votes(self.strand_dict, introns, _k0, '-')",
              "all(k in self.strand_dict and self.strand_dict[k] == old(self.strand_dict)[k] for k in old(self.strand_dict))",
              "all(introns[j] in self.strand_dict for j in range(_k0))",
+             "all(introns[j] in old(self.strand_dict) or self.strand_dict[introns[j]] == istrand(self.chr_record, 1, introns[j]) for j in range(_k0))",
+             # the memo holds nothing but what it held before and the introns seen so far
+             "all(k in old(self.strand_dict) or any(k == introns[j] for j in range(_k0)) for k in self.strand_dict)",
              "count_fwd >= 0 and count_rev >= 0 and count_fwd + count_rev <= _k0",
              "(count_fwd > 0) == any(self.strand_dict[introns[j]] == '+' for j in range(_k0))",
              "(count_rev > 0) == any(self.strand_dict[introns[j]] == '-' for j in range(_k0))",
@@ -122,6 +147,7 @@ contract("src/gene_info.py:StrandDetector.count_canonical_sites", {"self": "rec:
 
 contract("src/gene_info.py:StrandDetector.get_clean_strand", {"self": "rec:StrandDetector", "introns": IVS},
          returns="str", props=["C18", "C04"], modifies=["self.strand_dict"],
+         requires=["all(1 <= introns[j][0] and introns[j][0] + 1 <= introns[j][1] and introns[j][1] <= len(self.chr_record) for j in range(len(introns)))"],
          # '+' / '-' only on unanimous splice-site evidence, '.' otherwise
          ensures=["(result == '+') == (any(self.strand_dict[introns[j]] == '+' for j in range(len(introns))) and "
                   "not any(self.strand_dict[introns[j]] == '-' for j in range(len(introns))))",
@@ -133,6 +159,7 @@ contract("src/gene_info.py:StrandDetector.get_clean_strand", {"self": "rec:Stran
 contract("src/gene_info.py:StrandDetector.get_strand",
          {"self": "rec:StrandDetector", "introns": IVS, "has_polya": "bool", "has_polyt": "bool"},
          returns="str", props=["C18", "C04"], modifies=["self.strand_dict"],
+         requires=["all(1 <= introns[j][0] and introns[j][0] + 1 <= introns[j][1] and introns[j][1] <= len(self.chr_record) for j in range(len(introns)))"],
          ensures=["result == '+' or result == '-' or result == '.'",
                   # never contradicts all available evidence: unanimous splice sites decide the strand ...
                   "not (len(introns) > 0 and all(self.strand_dict[introns[j]] == '+' for j in range(len(introns)))) or result == '+'",
@@ -493,3 +520,31 @@ def c18_random_loci(tier, rng):
     if not viol and tier != "quick" and (total.get("True", 0) == 0 or total.get("False", 0) == 0):
         viol.append({"obligation": "C18.random_loci.nontrivial", "inputs": None, "observed": str(total), "required": "both flag values occur", "undecided": True})
     return {"cases": cases, "bound": "%d pipeline runs x 6 generated loci (read flags %s)" % (cases, total), "violations": viol, "samples": [{"seed": base, "flags": total}]}
+
+
+# ---- what the StrandDetector proofs assume about their object: chr_record is the CHROMOSOME, coordinates are chromosome coordinates ---------------
+@finite("C18.detector_wiring", ["C18"], note="every construction of a StrandDetector in the sources hands it the chromosome record (the proved contracts "
+        "read splice sites from self.chr_record at chromosome coordinates, first base = 1); read from the AST of all files under src/")
+def c18_detector_wiring(tier, rng):
+    import ast, glob, os
+    obl = dis = 0
+    viol = []
+    for path in sorted(glob.glob(os.path.join(front.REPO, "src", "*.py")) + [os.path.join(front.REPO, "isoquant.py")]):
+        try:
+            tree = ast.parse(open(path).read())
+        except SyntaxError:
+            continue
+        for n in ast.walk(tree):
+            if isinstance(n, ast.Call) and isinstance(n.func, ast.Name) and n.func.id == "StrandDetector":
+                obl += 1
+                args = [ast.unparse(a) for a in n.args] + ["%s=%s" % (k.arg, ast.unparse(k.value)) for k in n.keywords]
+                if args in (["self.chr_record"], ["chr_record"], ["current_chr_record"]):
+                    dis += 1
+                else:
+                    viol.append({"obligation": "C18.detector_wiring.%s.%d" % (os.path.basename(path), n.lineno), "inputs": None,
+                                 "observed": "StrandDetector(%s)" % ", ".join(args), "required": "StrandDetector(<the chromosome record>)",
+                                 "undecided": not any("region" in a or "window" in a for a in args)})
+    if obl == 0:
+        viol.append({"obligation": "C18.detector_wiring.none", "inputs": None, "observed": "no construction found", "required": "some", "undecided": True})
+    return {"obligations": obl, "discharged": dis, "violations": viol, "cases": obl, "exhaustive": True, "bound": "all StrandDetector(...) calls in the sources",
+            "samples": [{"call": "StrandDetector(self.chr_record)"}]}
